@@ -53,25 +53,35 @@ fn c08_base_cardinals() {
 }
 """ % (len(rows), ", ".join(rows), len(rows) + 2), functions=["(cardinals.json of the current tree, evaluated against Inv)"], symbolic="none (concrete table of %d bundles)" % len(rows), shape="base case", unwind=len(rows) + 2))
 
-    # ---- inductive step: one-slot feature / node matrices
+    # ---- inductive step: one-slot feature / node matrices (one harness per node, one block per feature: see C04)
+    by_node = {}
     for fi in range(n):
-        nm = "c08_step_feat_%02d_%s" % (fi, props_c04.fname(fi))
+        by_node.setdefault(props_c04.NODE_OF[fi], []).append(fi)
+    for nix, fl in sorted(by_node.items()):
+        blocks = []
+        for fi in fl:
+            blocks.append(G.T("""
+    {   // [±@fn@]
+        let s = any_inv_seg();
+        let b = any_bin();
+        let mut m = mods_new();
+        m.feats[@fi@] = Some(ModKind::Binary(b));
+        let mut t = s;
+        let r = t.apply_seg_mods(&alphas, m.nodes, m.feats, P, false);
+        assert!(r.is_ok(), "role=unexpected-error-@fn@");
+        assert!(inv(&t), "role=bundle-invariant-broken-@fn@");
+        kani::cover!(t != s && b == BinMod::Positive);
+        kani::cover!(t != s && b == BinMod::Negative);
+    }""", fi=fi, fn=props_c04.fname(fi)))
+        nm = "c08_step_feats_%s" % props_c04.NODE_NAME[nix]
         hs.append(G.H(nm, "step-one-feature", "seg", G.T(HDR + """
 fn @name@() {
-    let s = any_inv_seg();
-    let b = any_bin();
     let alphas: RefCell<HashMap<char, Alpha>> = RefCell::new(HashMap::new());
-    let mut m = mods_new();
-    m.feats[@fi@] = Some(ModKind::Binary(b));
-    let mut t = s;
-    let r = t.apply_seg_mods(&alphas, m.nodes, m.feats, P, false);
-    assert!(r.is_ok(), "role=unexpected-error");
-    assert!(inv(&t), "role=bundle-invariant-broken");
-    kani::cover!(t != s && b == BinMod::Positive);
-    kani::cover!(t != s && b == BinMod::Negative);
+@blocks@
     std::mem::forget(alphas);
 }
-""", name=nm, fi=fi), functions=["Segment::apply_seg_mods", "Segment::set_feat", "Segment::set_node", "Place::set_*"], symbolic="all bundles satisfying Inv, polarity", shape="[±%s]" % props_c04.fname(fi), unwind=unwind, stubs=STUBS))
+""", name=nm, blocks="\n".join(blocks)), functions=["Segment::apply_seg_mods", "Segment::set_feat", "Segment::set_node", "Place::set_*"], symbolic="per feature: all bundles satisfying Inv, polarity",
+            shape="[±F] for F in {%s}" % ", ".join(props_c04.fname(f) for f in fl), unwind=unwind, stubs=STUBS, weight=len(fl)))
     for ni in range(3, 8):
         nd = G.NODES[ni]
         nm = "c08_step_node_%s" % nd.lower()
@@ -141,22 +151,74 @@ fn @name@() {
 
     # ---- the 32 diacritics of diacritics.json, constructed directly
     dias = json.loads(G.read(dst, "src/diacritics.json"))
-    for di, d in enumerate(dias):
-        nm = "c08_step_diacritic_%02d" % di
+    GROUP = 8
+    for g0 in range(0, len(dias), GROUP):
+        blocks = []
+        for di in range(g0, min(g0 + GROUP, len(dias))):
+            d = dias[di]
+            blocks.append(G.T("""
+    {   // diacritic @di@ "@dname@" (U+@cp@)
+        let s = any_inv_seg();
+        let d = Diacritic { name: String::new(), diacrit: '\\u{@cp@}', prereqs: @pre@, payload: @pay@ };
+        let mut t = s;
+        let r = t.check_and_apply_diacritic(&d);
+        match r { Ok(()) => assert!(inv(&t), "role=diacritic-breaks-bundle-invariant-@di@"), Err(_) => assert!(t == s, "role=rejected-diacritic-changed-segment-@di@") }
+        kani::cover!(r.is_ok() && t != s);
+        @cover_err@
+        std::mem::forget(d);
+    }""", di="%02d" % di, dname=d["name"].replace('"', ""), cp="%04x" % ord(d["diacrit"]), pre=dia_mods(d.get("prereqs"), feats), pay=dia_mods(d.get("payload"), feats), cover_err="kani::cover!(r.is_err());" if d.get("prereqs") else ""))
+        nm = "c08_step_diacritics_%02d_%02d" % (g0, min(g0 + GROUP, len(dias)) - 1)
         hs.append(G.H(nm, "step-diacritic", "seg", G.T(HDR0 + """
 fn @name@() {
-    // diacritic "@dname@" (U+@cp@)
-    let s = any_inv_seg();
-    let d = Diacritic { name: String::new(), diacrit: '\\u{@cp@}', prereqs: @pre@, payload: @pay@ };
-    let mut t = s;
-    let r = t.check_and_apply_diacritic(&d);
-    match r { Ok(()) => assert!(inv(&t), "role=diacritic-breaks-bundle-invariant"), Err(_) => assert!(t == s, "role=rejected-diacritic-changed-segment") }
-    kani::cover!(r.is_ok() && t != s);
-    @cover_err@
-    std::mem::forget(d);
+@blocks@
 }
-""", name=nm, dname=d["name"].replace('"', ""), cp="%04x" % ord(d["diacrit"]), pre=dia_mods(d.get("prereqs"), feats), pay=dia_mods(d.get("payload"), feats), cover_err="kani::cover!(r.is_err());" if d.get("prereqs") else ""),
-            functions=["Segment::check_and_apply_diacritic", "Segment::match_modifiers", "Segment::apply_diacritic_payload"], symbolic="all Inv bundles", shape="diacritic %d %s" % (di, d["name"]), unwind=unwind))
+""", name=nm, blocks="\n".join(blocks)), functions=["Segment::check_and_apply_diacritic", "Segment::match_modifiers", "Segment::apply_diacritic_payload"], symbolic="per diacritic: all Inv bundles",
+            shape="diacritics %d..%d of diacritics.json: %s" % (g0, min(g0 + GROUP, len(dias)) - 1, ", ".join(dias[i]["name"] for i in range(g0, min(g0 + GROUP, len(dias))))), unwind=unwind, weight=GROUP))
+
+    # ---- alphas in an output: the value carried comes from a well-formed donor (bound by the REAL matcher), the target is
+    # well formed, and the result must be well formed again -- for the whole place (`αPLACE`), a sub-node and a feature
+    from props_c04 import UNWINDSET
+    anode = [3] + ([4, 5, 6, 7] if tier == "thorough" else [[6, 4, 7, 5][seed % 4]])
+    for ni in anode:
+        nd = G.NODES[ni]
+        nm = "c08_step_alpha_node_%s" % nd.lower()
+        hs.append(G.H(nm, "step-alpha", "subrule", G.T(HDR + """
+fn @name@() {
+    // `[α@ND@]` bound on a well-formed donor, applied to a well-formed target
+    let d = any_inv_seg(); let t0 = any_inv_seg();
+    let sub = mk_sub(RuleType::Substitution);
+    let kind = ModKind::Alpha(AlphaMod::Alpha('α'));
+    match sub.match_node(d, NodeKind::@nd@, &kind, P) { Ok(v) => assert!(v, "role=first-use-of-node-alpha-matches"), Err(_) => assert!(false, "role=unexpected-error") }
+    let mut m = mods_new();
+    m.nodes[@ni@] = Some(kind);
+    let mut t = t0;
+    let r = t.apply_seg_mods(&sub.alphas, m.nodes, m.feats, P, false);
+    assert!(r.is_ok(), "role=unexpected-error");
+    assert!(inv(&t), "role=invariant-after-alpha-@nd@");
+    kani::cover!(raw(&d.place).is_none() && raw(&t0.place).is_some());
+    kani::cover!(raw(&d.place).is_some() && t != t0);
+    std::mem::forget(sub);
+}
+""", name=nm, nd=nd, ND=nd.upper(), ni=ni), shared=[G.SUBRULE_SHARED], functions=["SubRule::match_node", "Segment::apply_seg_mods", "Segment::set_node", "Place::set_*", "HashMap::insert/get (real)"],
+            symbolic="donor and target bundles satisfying Inv", shape="[α%s] from an Inv donor onto an Inv target" % nd.upper(), unwind=unwind, unwindset=UNWINDSET, stubs=["std::hash::RandomState::new -> fixed keys"], cap_s=1500, weight=5))
+    for (fi, iu) in ([(f, u) for f in (15, 16, 20, 24) for u in (False, True)] if tier == "thorough" else [([15, 20, 24, 16][seed % 4], True)]):
+        nm = "c08_step_alpha_feat_%02d%s" % (fi, "_inv" if iu else "")
+        hs.append(G.H(nm, "step-alpha", "subrule", G.T(HDR + """
+fn @name@() {
+    let d = any_inv_seg(); let t0 = any_inv_seg();
+    let sub = mk_sub(RuleType::Substitution);
+    let (nd, mask) = FType::from_usize(@fi@).to_node_mask();
+    let r = sub.match_seg_kind(&ModKind::Alpha(AlphaMod::Alpha('α')), d, nd, mask);
+    let mut m = mods_new();
+    m.feats[@fi@] = Some(ModKind::Alpha(AlphaMod::@ctor@('α')));
+    let mut t = t0;
+    let r2 = t.apply_seg_mods(&sub.alphas, m.nodes, m.feats, P, false);
+    match r { Ok(true) => { assert!(r2.is_ok(), "role=unexpected-error"); assert!(inv(&t), "role=invariant-after-alpha-feature"); }, Ok(false) => { assert!(t == t0, "role=target-untouched-when-unbound"); }, Err(_) => assert!(false, "role=unexpected-error") }
+    kani::cover!(t != t0);
+    std::mem::forget(sub);
+}
+""", name=nm, fi=fi, ctor="InvAlpha" if iu else "Alpha"), shared=[G.SUBRULE_SHARED], functions=["SubRule::match_seg_kind", "Segment::apply_seg_mods", "Segment::set_feat", "HashMap::insert/get (real)"],
+            symbolic="donor and target bundles satisfying Inv", shape="[%sα%s] from an Inv donor onto an Inv target" % ("-" if iu else "", props_c04.fname(fi)), unwind=unwind, unwindset=UNWINDSET, stubs=["std::hash::RandomState::new -> fixed keys"], cap_s=1500, weight=5))
 
     # ---- side lemma: under Inv, `[+place]` as the rule matcher reads it == as the alias matcher reads it
     hs.append(G.H("c08_place_lemma", "lemma", "seg", """
@@ -206,6 +268,6 @@ fn c08_twin_reach() {
                    "unwind %d; base case unwind %d" % (unwind, len(rows) + 2)],
         "outside": ["'at least one syllable, none empty' and 'tone at most four non-zero digits': maintained by SubRule::transform (deletion/metathesis arms), substitution tail and concat_tone, which exhausted 26-27 GB under CBMC with symbolic positions/tones (VecDeque::remove, u64::to_string + Vec::dedup)",
                     "that rule sequences only ever compose these operations (argued from the code: segments are mutated only through apply_seg_mods / set_node / set_feat / diacritics / copies)",
-                    "node and place alphas (their stored values come from an Inv donor; covered for the write-back in C04's alpha-node family)"],
+                    "a later *match* against a bound alpha does not mutate bundles and is not part of the step"],
         "assumptions": ["Inv as defined in harness/common.rs is the reading of the property's last clause", "std::hash::RandomState::new stubbed with fixed keys"],
     }
